@@ -442,11 +442,16 @@ func (c *ExecCtx) checkFrame(st *State, env *SpecEnv, pos token.Pos) {
 	}
 	// allowed: heap name -> list of object refs
 	allowed := map[string][]*Term{}
+	allowedAll := map[string]bool{}
 	old := c.oldState
 	for _, m := range fs.Modifies {
 		env.where = m.Where
 		switch x := m.Expr.(type) {
 		case *ast.SelectorExpr:
+			if hn, _, ok := env.typeFieldHeap(x); ok {
+				allowedAll[hn] = true
+				continue
+			}
 			base := env.eval(old, old, x.X)
 			name := x.Sel.Name
 			if strings.HasPrefix(name, "ʃ") {
@@ -499,7 +504,7 @@ func (c *ExecCtx) checkFrame(st *State, env *SpecEnv, pos token.Pos) {
 		if init == nil || cur == init {
 			continue
 		}
-		if h == "$alloc" || strings.HasPrefix(h, "C.") {
+		if h == "$alloc" || strings.HasPrefix(h, "C.") || allowedAll[h] {
 			continue
 		}
 		// objects allocated during the call may be written freely
